@@ -8,6 +8,17 @@ TB = ("Coq 8.16.1 kernel; no axioms declared; tools/py2gallina.py translator and
       "(extraction via ExtrOcamlBasic + ocaml/driver.ml); see DESIGN.md section 6")
 
 CHECKS = {
+    "C16": dict(cat="other", ref="7/C16", technique="Coq theorems over constraint predicates translated from the source every run and tables introspected from the live classes; report/enforcement equality by vm_compute; placement by compiling boundary networks (exploration)",
+                text="Partial. Proved: constraint_matches_doc_<name> - for ALL integer arguments the translated predicate equals "
+                     "membership in the range parsed from its own formatted docstring (17 exact, 3 under a stated side condition, the "
+                     "remaining ones `_partial` with `_refuted` witnesses that are the open findings); report_lists_enforced and "
+                     "report_rows_are_the_supported_builtins (the generated report lists exactly, in order, the constraints the two "
+                     "drivers evaluate, for all 192 Op members, tied to the recorded evaluation order); supported_is_conjunction, "
+                     "npu_candidate_iff_report. NOT proved: that an operator passing the constraints ends up inside an Ethos-U operator "
+                     "(graph optimiser, pass packing, subgraph extraction): sampled by compiling networks just inside and just outside "
+                     "each documented range and judging placement with the documented reading.",
+                note=TB + "; tools/constraints2gallina.py (dedicated fail-closed translator); six open known findings "
+                     "(documentation/enforcement mismatches and two crashes)"),
     "C17": dict(cat="proof", ref="7/C17", technique="Coq proof (payload_parses) + translated source functions + correspondence by extraction",
                 text="Theorem payload_parses: for all six accelerators (table regenerated from the source each run) and every in-range "
                      "word list below 2^24, an independent reader recovers the matching configuration, a 16-byte aligned start, the "
